@@ -199,8 +199,22 @@ pub fn main(args: &[String]) {
             } else {
                 guarded(|| heathcliff::CoeffModulus::create(n, vec![b])[0].value())
             };
+            // (thorough: the largest degree only for three moduli and two monomials - each image is 4096 exact BigNat facts)
+            if !quick && logn == 12 && !(b == 25 || b == 45 || b == 61) {
+                continue;
+            }
             if let Ok(q) = q {
-                let js: Vec<usize> = if n <= 16 { (0..n).collect() } else if quick { vec![1, n - 1] } else { vec![0, 1, 2, n / 2, n - 1, rng.gen_range(0..n)] };
+                let js: Vec<usize> = if n <= 16 {
+                    (0..n).collect()
+                } else if quick {
+                    vec![1, n - 1]
+                } else if logn >= 12 {
+                    vec![1, rng.gen_range(0..n)]
+                } else if logn >= 10 {
+                    vec![1, n - 1, rng.gen_range(0..n)]
+                } else {
+                    vec![0, 1, 2, n / 2, n - 1, rng.gen_range(0..n)]
+                };
                 if let Some(e) = big_event(logn, q, &js, quick && n > 16) {
                     println!("{}", e);
                 }
